@@ -573,9 +573,10 @@ PROPS["C11"] = dict(
 
 PROPS["C02"] = dict(
     title="Acknowledged mode recovers from any bounded loss, duplication and reordering",
-    module="Cfdp.Props.C02n",
+    module="Cfdp.Props.C02r",
     namespace="Cfdp.Seg",
-    theorems=["C02_round_completes", "C02_gaps_answered", "Cfdp.Recv.C02_finishes_when_complete", "Cfdp.Recv.C02_never_waits_complete", "Cfdp.Recv.C02_complete_is_success", "Cfdp.Recv.C02_size_check_passes", "Cfdp.Loop.C02_no_integrity_fault", "Cfdp.Net.C02_two_party_no_integrity_fault", "Cfdp.Loop.C02_recv_completes", "Cfdp.Loop.C02_send_completes", "Cfdp.Net.C02_two_party_completes"],
+    theorems=["C02_round_completes", "C02_gaps_answered", "Cfdp.Recv.C02_finishes_when_complete", "Cfdp.Recv.C02_never_waits_complete", "Cfdp.Recv.C02_complete_is_success", "Cfdp.Recv.C02_size_check_passes", "Cfdp.Loop.C02_no_integrity_fault", "Cfdp.Net.C02_two_party_no_integrity_fault", "Cfdp.Loop.C02_recv_completes", "Cfdp.Loop.C02_send_completes", "Cfdp.Net.C02_two_party_completes",
+              "Cfdp.Loop.C02_sender_answers_nak", "Cfdp.Loop.C02_receiver_recovers", "Cfdp.Loop.C02_recovery_round"],
     engines=["daemon", "recv", "send", "net"],
     design="§6 C02",
     technique="Lean 4 proofs of the recovery steps over the segment / receiver / sender models; the composition over a lossy link is checked on two real daemons under a virtual clock with bounded fault plans",
@@ -594,9 +595,17 @@ PROPS["C02"] = dict(
                 "In the two-party model the assumption on what the link carries is discharged by the sender model: whatever an un-cancelled acknowledged sender transmits "
                 "(invariant CondOk: every EOF it prepares says NoError; with C07's Truthful / EofOk) is such a PDU, so once the link has handed the receiver the sender's "
                 "Metadata, an EOF and data covering the file, the receiver has finished successfully (C02_two_party_completes, Props/C02n.lean). "
-                "So recovery needs nothing but delivery. PARTIAL: that the retransmissions which bring that delivery about happen "
-                "whenever fewer than `limit` consecutive transmissions of any PDU are lost is a liveness statement about two transaction models, the link and the scheduler; "
-                "it is not a theorem here. It is checked on the real code: the daemon engine runs acknowledged transfers between two real daemons with every kind of fault "
+                "So recovery needs nothing but delivery. One recovery round is a theorem as well (Props/C02r.lean), from ANY pair of states reached after the losses "
+                "(timers may have fired, anything may be queued): a sender that has sent its EOF and receives a NAK answers every request of it - cut into segment-size "
+                "pieces, de-duplicated, whatever was queued before - with file-data PDUs carrying exactly the source file's bytes, within as many transmissions as requests "
+                "are queued (C02_sender_answers_nak: splitPieces / dedup coverage lemmas, the flush loop by induction over the queue); a receiver in mid-recovery (Metadata "
+                "and the truthful EOF in, holding only bytes of the source: C01's invariant) that is handed such PDUs - any order, any times, any duplicates - covering what "
+                "it is missing ends Finished / NoError / Complete / Retained (C02_receiver_recovers: induction over the deliveries, completion noticed at the first moment "
+                "the segment list covers the file, a reported delivery stays as reported); composed: when a NAK whose requests contain every missing byte - which is what "
+                "the receiver's own NAKs are, C08_exact - reaches the sender and the link loses none of the answers, the delivery succeeds (C02_recovery_round). "
+                "PARTIAL: that such a round comes about - the NAK timer fires, the NAK and its answers get through - whenever fewer than `limit` consecutive transmissions "
+                "of any PDU are lost is a statement about the timers of two transaction models, the link and the scheduler; C03 / C17 bound the timers, C08 gives the NAK's "
+                "content, but the composition over a lossy fair schedule is not one theorem here. It is checked on the real code: the daemon engine runs acknowledged transfers between two real daemons with every kind of fault "
                 "plan below the limit and requires file identity, success at both users and termination of both transactions (oracles recovers, same_outcome, daemon_bounded); the net engine does the same on a real sender and a real receiver in lockstep with both Lean models (losses confined to a zero-time phase, then a loss-free link)."),
     level_note=DAEMON_NOTE + " " + RECV_SEND_NOTE,
     rule=("daemon engine: 40 (quick) / 400 (thorough) acknowledged transfers, files of 0, 1, seg-1, seg, seg+1, 3 seg, 5 seg+7 octets, segment 32/64/128, limit 3/4, timeouts 1-3 s, "
@@ -605,5 +614,5 @@ PROPS["C02"] = dict(
           "per-side steps. Non-trivial = a routing line with at least one delivered PDU / a PDU emitted."
           " net engine (300 quick / 3000 thorough two-party histories): one real SendTransaction and one real RecvTransaction joined by a simulated link that delivers only PDUs the other side emitted (in order, lost, duplicated, reordered, as stragglers), random schedules of transmissions, deliveries, timer expiries and user requests at both sides, then a loss-free fair phase on the shared virtual clock until both have ended; every call is answered in lockstep by the Lean sender and receiver models (ops net s / net r), the per-side oracles of the send / recv engines keep running, and two-party oracles are added: C02 recovers / same_outcome (acknowledged mode, losses confined to a zero-time phase, default handlers: both sides report success), C03 net_bounded / net_never_stuck, C04 sender_success_only_after_receiver, C01 two_party_file."),
     assumptions=["bounded faults: fewer than `limit` faults per transfer, delays below the timers (as the property states)"],
-    unproved=["the liveness half: that the timers bring the deliveries about within the limits under bounded loss (checked dynamically by the daemon and net engines); the other half - delivery implies completion, at the receiver and in the two-party model - is proved"],
+    unproved=["that a loss-free recovery round comes about within the limits under bounded loss (the NAK timer fires, the NAK and its answers get through): checked dynamically by the daemon and net engines; proved are 'delivery implies completion' (receiver and two-party model) and 'one recovery round whose answers are not lost completes the delivery' (C02_recovery_round)"],
 )
